@@ -1,10 +1,16 @@
 #!/bin/sh
-# usage: seedtest.sh <patch.diff> <property-id>...   applies the patch to /repo, runs the checks, reverts
+# usage: seedtest.sh <patch.diff> <property-id>...   applies the patch to /repo, runs the checks, reverts.
+# The checks rewrite /verif/evidence/<id>.json for the PATCHED tree; the files of the unchanged tree are put back
+# afterwards so that a mutant's evidence is never committed (this happened once: C32, see DESIGN.md).
 p=$1; shift
 [ -z "$(git -C /repo status --porcelain --untracked-files=no)" ] || { echo "/repo has uncommitted changes; commit first"; exit 2; }
 git -C /repo apply "$p" || { echo "patch does not apply"; exit 2; }
+sav=$(mktemp -d /var/tmp/seedtest-ev.XXXXXX)
+cp -a /verif/evidence/. "$sav"/
 for id in "$@"; do
   /verif/bin/govc check $id --tier quick 2>&1 | tail -6
   echo "rc=$?"
 done
-git -C /repo checkout -- . 
+git -C /repo checkout -- .
+cp -a "$sav"/. /verif/evidence/
+rm -rf "$sav"
